@@ -676,7 +676,8 @@ pub fn draw(rng: &mut Rng, b: &[u8], others: &[Vec<u8>], enabled: u32) -> Option
 ///     per function); 11: n types + n tiny functions, one per type; 12: one function of n (`i32.const`, `drop`)
 ///     pairs; 13: n globals; 14: n exports of one function; 15: one `br_table` with n targets;
 ///     16: n active data segments; 17: one element segment of n function items; 18: n local-declaration runs of
-///     one local each, alternating types, in one function (n <= 50 000).
+///     one local each, alternating types, in one function (n <= 50 000); 19: n functions of one type in three
+///     distinct small sizes in a repeating pattern (ties everywhere, not sorted by size).
 pub fn scale_bomb(n: u32, kind: u8) -> Vec<u8> {
     use wasm_encoder as we;
     let mut m = we::Module::new();
@@ -694,7 +695,7 @@ pub fn scale_bomb(n: u32, kind: u8) -> Vec<u8> {
     }
     m.section(&ts);
     let nf: u32 = match kind {
-        10 | 11 => n,
+        10 | 11 | 19 => n,
         _ => 1,
     };
     let mut fs = we::FunctionSection::new();
@@ -734,10 +735,17 @@ pub fn scale_bomb(n: u32, kind: u8) -> Vec<u8> {
     }
     let mut code = Vec::new();
     wasmsplit::write_leb_u32(nf, &mut code);
-    for _ in 0..nf {
+    for fi in 0..nf {
         let mut body: Vec<u8> = Vec::new();
         match kind {
             10 => body.extend_from_slice(&[0x01, 0xd0, 0x86, 0x03, 0x7f]),
+            19 => {
+                // three distinct sizes in a repeating pattern: many ties, not sorted
+                body.push(0x00);
+                for _ in 0..(fi % 3) {
+                    body.extend_from_slice(&[0x41, 0x01, 0x1a]);
+                }
+            }
             18 => {
                 let k = n.min(50_000);
                 wasmsplit::write_leb_u32(k, &mut body);
